@@ -2,6 +2,8 @@
 T_E2 = "bounded symbolic execution of the real code (bvsym proxies on z3 bit-vectors), solver verdict per path, native replay"
 CLAIMED = {
     "C01": dict(technique=T_E2 + "; payload length itself a solver variable for the header", design_ref="DESIGN.md 5/C01"),
+    "C02": dict(technique=T_E2 + "; arbitrary symbolic byte stream vs reference decoder over the same terms", design_ref="DESIGN.md 5/C02"),
+    "C06": dict(technique=T_E2 + "; solver-checked simulation relation between the validator's DFA step and a reference DFA (all 256 bytes per state pair), plus bounded all-strings check", design_ref="DESIGN.md 5/C06"),
 }
 _PENDING = "check not built yet in this revision (planned: see DESIGN.md section 5)"
 NOT_APPLICABLE = {("C%02d" % i): _PENDING for i in range(1, 21) if ("C%02d" % i) not in CLAIMED}
